@@ -671,8 +671,55 @@ func runCloseOrder(c *Ctx, r *RuleRun) {
 	if n == 0 {
 		r.Viol(fn, "flush", p.Pos(cf.Pos()), "Close never flushes the active memtable")
 	}
+	runCloseState(c, r)
+}
+
+// runCloseState: Close publishes StateClosed on every path, after its work.
+func runCloseState(c *Ctx, r *RuleRun) {
+	p := c.P
+	d := c.Dur()
+	cf := p.Fn("", "DB", "Close")
+	if cf == nil {
+		r.Undecided("-", "DB.Close", "", "anchor not found")
+		return
+	}
+	fn := p.FnName(cf)
+	publishes := func(ins ssa.Instruction) bool {
+		fe := d.effects[ins]
+		return fe != nil && fe.Kind == "rename" && fe.To == "table"
+	}
+	removesWal := func(ins ssa.Instruction) bool {
+		fe := d.effects[ins]
+		return fe != nil && fe.Kind == "remove" && fe.Class == "wal"
+	}
+	settle := func(ins ssa.Instruction) bool {
+		call, ok := ins.(*ssa.Call)
+		return ok && (p.SiteMayReach(call, publishes) || p.SiteMayReach(call, removesWal))
+	}
 	// state closed published last: a deferred or final atomic store of StateClosed(3) to DB.state
 	state := p.Field("", "DB", "state")
+	isStateStore := func(ins ssa.Instruction) bool {
+		ci, ok := ins.(ssa.CallInstruction)
+		if !ok {
+			return false
+		}
+		obj := p.CalleeObj(ci)
+		if obj == nil || !funcIs(obj, "sync/atomic", "", "StoreUint32") {
+			return false
+		}
+		args := ci.Common().Args
+		if fv, _ := fieldOfAddr(args[0]); fv != state {
+			return false
+		}
+		k, ok := constInt(args[1])
+		return ok && k == 3
+	}
+	qs := PathQuery{P: p, Fn: cf, Avoid: isStateStore, Target: isReturn}
+	if w := qs.FindPath(); w != nil {
+		r.Viol(fn, "StateClosed on every path", p.Pos(instrPos(w[len(w)-1])), "Close can return without storing StateClosed: View/Update keep running transactions against the closed engine instead of returning ErrDBClosed", p.describePath(w)...)
+	} else {
+		r.Hold(fn, "StateClosed on every path", p.Pos(cf.Pos()), "every return is preceded by (a deferred) store of StateClosed")
+	}
 	last := false
 	eachInstr(cf, func(ins ssa.Instruction) {
 		ci, ok := ins.(ssa.CallInstruction)
@@ -1671,6 +1718,46 @@ func runSkipUpdate(c *Ctx, r *RuleRun) {
 			}
 		}
 	})
+	// on every path: from the equal-key edge no return is reachable that avoids one of the two stores
+	if gotV && gotT {
+		for _, fv := range []*types.Var{valF, tombF} {
+			isStore := func(i ssa.Instruction) bool {
+				st, ok := i.(*ssa.Store)
+				if !ok {
+					return false
+				}
+				f2, _ := fieldOfAddr(st.Addr)
+				return f2 == fv && fromParam(st.Val, fv)
+			}
+			for _, b := range set.Blocks {
+				if len(b.Instrs) == 0 {
+					continue
+				}
+				iff, ok := b.Instrs[len(b.Instrs)-1].(*ssa.If)
+				if !ok {
+					continue
+				}
+				for si := range b.Succs {
+					cm := canonCond(iff.Cond, si == 0)
+					k, isK := constInt(cm.Y)
+					if cm.Op == "==" && cm.Y != nil && isK && k == 0 && callTo(p, cm.X, cmpKeys) != nil && len(b.Succs[si].Instrs) > 0 {
+						first := b.Succs[si].Instrs[0]
+						if isStore(first) {
+							continue
+						}
+						q := PathQuery{P: p, Fn: set, Starts: []ssa.Instruction{first}, Avoid: isStore, Target: isReturn}
+						if q.FindPath() != nil {
+							if fv == valF {
+								gotV = false
+							} else {
+								gotT = false
+							}
+						}
+					}
+				}
+			}
+		}
+	}
 	r.Check(gotV && gotT, p.FnName(set), "existing key: value and tombstone replaced", p.Pos(set.Pos()), "both fields are stored from the argument on the equal-key path",
 		"setting an existing versioned key does not replace both the value and the tombstone flag: a re-logged delete (recovery) or overwrite keeps the old state")
 	// nothing is inserted on the equal path: it returns before any node is allocated
